@@ -136,9 +136,24 @@ FUNCS = {
         # the extension maps this agent sends for a transfer carry the TRANSFER entry only; maps that combine it
         # with other entries are outside the cases proved (see MANIFEST)
         cases=[{'name': 'transfer', 'params': {'extmap': 'PyDict{2: [Int, Int, Int, Bytes]}'}}],
+        # ASSUMED for callers that hand over a decoded map of unknown shape (Agent._recv_datagram after cbor2.load): the
+        # handler keeps the table invariant, may queue bundles and announce them, may raise; nothing else is known
+        fallback=dict(handler=True, params={'sock': 'Opt[Any[sock]]', 'extmap': 'Any[cbor]', 'conv': 'Ref[Conversation]',
+                                            'timestamp': 'Any[datetime]'},
+                      raises={'Exception': dict()},
+                      modifies=['UAgent._rx_fragments', 'UAgent._rx_id', 'UAgent._rx_queue', 'UAgent._tx_id', 'UAgent._tx_queue',
+                                'Transfer.address', 'Transfer.port', 'Transfer.xfer_id', 'Transfer.total_length',
+                                'Transfer.total_valid', 'Transfer.valid', 'Transfer.data', 'UBundleItem.address',
+                                'UBundleItem.port', 'UBundleItem.file', 'UBundleItem.local_if', 'UBundleItem.local_address',
+                                'UBundleItem.local_port', 'UBundleItem.transfer_id', 'UBundleItem.total_length',
+                                'UBundleItem.ip_tos', 'ghost.u_rx_finished', 'ghost.u_maps'],
+                      ensures=[('ids_grow', 'self._rx_id >= old(self._rx_id)'),
+                               ('one_more_map_handled', 'ghost.u_maps == old(ghost.u_maps) + 1'),
+                               ('announcements_only_added', 'length(ghost.u_rx_finished) >= length(old(ghost.u_rx_finished))')]),
         # nothing is claimed about the octets of the reassembly buffer (see MANIFEST): buffer writes are opaque
         opaque_slice_store=True,
         solver_route='cli',    # set / interval reasoning: decided by the command-line solvers, stalls in process
+        ghost_entry=['ghost.u_maps = ghost.u_maps + 1'],
         requires=[
             # (well-formed segment, as Agent._send_transfer builds them) id, total length, offset, data within the total
             ('segment_well_formed', 'sx(extmap, 0) >= 0 and sx(extmap, 1) >= 0 and sx(extmap, 1) < 18446744073709551616 and '
@@ -146,7 +161,7 @@ FUNCS = {
             ('peer_known', 'conv.peer_port is not None and unwrap(conv.peer_port) >= 0 and unwrap(conv.peer_port) < 65536 and '
                            'conv.peer_address is not None and self._rx_id >= 0', []),
         ],
-        raises={'ValueError': dict(modifies=[], when='not rejected(self, sock) and old(contains(self._rx_fragments, xkey(conv, sx(extmap, 0)))) and '
+        raises={'ValueError': dict(modifies=['ghost.u_maps'], when='not rejected(self, sock) and old(contains(self._rx_fragments, xkey(conv, sx(extmap, 0)))) and '
                                                      'not (old(lookup(self._rx_fragments, xkey(conv, sx(extmap, 0))).total_length) == sx(extmap, 1))',
                                    iff=True)},
         modifies=['UAgent._rx_fragments', 'UAgent._rx_id', 'UAgent._rx_queue', 'Transfer.address', 'Transfer.port',
@@ -154,7 +169,7 @@ FUNCS = {
                   'UBundleItem.address', 'UBundleItem.port', 'UBundleItem.file', 'UBundleItem.local_if',
                   'UBundleItem.local_address', 'UBundleItem.local_port', 'UBundleItem.transfer_id',
                   'UBundleItem.total_length', 'UBundleItem.ip_tos', 'BytesIO.content', 'BytesIO.pos',
-                  'ghost.u_rx_finished'],
+                  'ghost.u_rx_finished', 'ghost.u_maps'],
         locals={'xfer': 'Opt[Ref[Transfer]]'},
         hints=[dict(label='entry_in_table', before='end_ix = frag_offset + len(frag_data)',
                     **{'assert': 'xfer is not None and contains(self._rx_fragments, xkey(conv, sx(extmap, 0))) and '
@@ -228,6 +243,64 @@ FUNCS.update({
                                      'item.file.pos == 0 and content(item) == old(content(item))', ['C13']),
             ('queued_last', 'self._tx_queue == old(self._tx_queue) + [item]', ['C18']),
             ('returns_the_id', 'eqv(result, item.transfer_id)', ['C18']),
+        ],
+    ),
+})
+
+SPECFUNCS.update({
+    # first octet of the message that starts at position p of the datagram, and what it makes of the message:
+    # 0 padding / 20..23 DTLS record / 6 BPv6 / any other major type: the rest of the datagram is skipped;
+    # major type 4 (array): one bundle; major type 5 (map): one extension map
+    'fo': (['d', 'p'], 'd[p]'),
+    'skips_rest': (['d', 'p'], 'fo(d, p) == 0 or (fo(d, p) >= 20 and fo(d, p) <= 23) or fo(d, p) == 6 or '
+                               '(not (fo(d, p) >= 128 and fo(d, p) < 160) and not (fo(d, p) >= 160 and fo(d, p) < 192))'),
+    'is_bundle': (['d', 'p'], 'fo(d, p) >= 128 and fo(d, p) < 160'),
+})
+
+FUNCS.update({
+    'udpcl.agent:Agent._starttls': dict(
+        self=AG, params={'sock': 'Any[sock]', 'conv': 'Ref[Conversation]', 'server_side': 'Bool'}, props=['C13'],
+        trusted=True, trusted_reason='DTLS handshake set-up (python-dtls, sockets): does not touch the transfer tables or queues',
+        raises={'Exception': dict()}, modifies=[]),
+    'udpcl.agent:Agent._recv_datagram': dict(
+        self=AG, params={'sock': 'Opt[Any[sock]]', 'data': 'Bytes', 'conv': 'Ref[Conversation]', 'ip_tos': 'Int'},
+        props=['C13'], handler=True,
+        requires=[('peer_known', 'conv.peer_port is not None and unwrap(conv.peer_port) >= 0 and unwrap(conv.peer_port) < 65536 and '
+                                 'conv.peer_address is not None and self._rx_id >= 0 and ghost.u_dg_ok', [])],
+        # a truncated / malformed CBOR item, and whatever the extension-map handler or the DTLS set-up raise, escape
+        raises={'cbor2.CBORDecodeError': dict(), 'Exception': dict()},
+        modifies=['UAgent._rx_fragments', 'UAgent._rx_id', 'UAgent._rx_queue', 'UAgent._tx_id', 'UAgent._tx_queue',
+                  'Transfer.address', 'Transfer.port', 'Transfer.xfer_id', 'Transfer.total_length', 'Transfer.total_valid',
+                  'Transfer.valid', 'Transfer.data', 'UBundleItem.address', 'UBundleItem.port', 'UBundleItem.file',
+                  'UBundleItem.local_if', 'UBundleItem.local_address', 'UBundleItem.local_port', 'UBundleItem.transfer_id',
+                  'UBundleItem.total_length', 'UBundleItem.ip_tos', 'BytesIO.content', 'BytesIO.pos',
+                  'ghost.u_rx_finished', 'ghost.u_dg_ok', 'ghost.u_p0', 'ghost.u_n0', 'ghost.u_m0', 'ghost.u_maps'],
+        locals={'first_data': 'Bytes', 'msg_data': 'Bytes'},
+        loops={0: dict(
+            invariant=[
+                ('reader_on_the_datagram', 'buf.content == data and buf.pos >= 0 and buf.pos <= length(data)'),
+                ('per_message', 'ghost.u_dg_ok and self._rx_id >= 0'),
+                ('table', 'forall(k, "XferKey", implies(contains(self._rx_fragments, k), '
+                          'entry_ok(lookup(self._rx_fragments, k)) and '
+                          'XferKey(lookup(self._rx_fragments, k).address, lookup(self._rx_fragments, k).port, '
+                          'lookup(self._rx_fragments, k).xfer_id) == k))'),
+            ],
+            ghost_begin=['ghost.u_p0 = buf.pos\nghost.u_n0 = length(ghost.u_rx_finished)\nghost.u_m0 = ghost.u_maps\n'],
+            # (reached only when there was a message at u_p0, i.e. u_p0 < length(data))
+            ghost_end=['ghost.u_dg_ok = ghost.u_dg_ok and ite(skips_rest(data, ghost.u_p0), '
+                       'buf.pos == length(data) and length(ghost.u_rx_finished) == ghost.u_n0 and ghost.u_maps == ghost.u_m0, '
+                       'buf.pos == ghost.u_p0 + item_len(data, ghost.u_p0) and '
+                       'ghost.u_maps == ghost.u_m0 + ite(is_bundle(data, ghost.u_p0), 0, 1) and '
+                       'implies(is_bundle(data, ghost.u_p0), length(ghost.u_rx_finished) == ghost.u_n0 + 1 and '
+                       'last(ghost.u_rx_finished) == str(self._rx_id - 1) and contains(self._rx_queue, self._rx_id - 1) and '
+                       'lookup(self._rx_queue, self._rx_id - 1).file.content == '
+                       'slice(data, ghost.u_p0, ghost.u_p0 + item_len(data, ghost.u_p0))))\n'],
+        )},
+        ensures=[
+            # every message of the datagram is handled on its own: padding (and anything unknown) ends the datagram; a
+            # bundle message queues exactly one bundle holding exactly the octets of that CBOR item, and the next message
+            # starts right after it; an extension map is handed over once and the next message starts right after it
+            ('each_message_handled_on_its_own', 'ghost.u_dg_ok', ['C13']),
         ],
     ),
 })
